@@ -522,7 +522,7 @@ class Walker:
         return [(s, "fall", None) if k == "val" else (s, k, p) for s, k, p in self.expr(n.value, st)]
 
     # ---- generators
-    def _run_generator(self, gen, s, on_yield, node, assigned=()):
+    def _run_generator(self, gen, s, on_yield, node, assigned=(), raw_kinds=False):
         """walk the body of generator `gen` = ("gen", qualname, bindings) in place; every value it
         yields is handed to on_yield(state in the consumer's scope, value) -> outcomes of the
         consumer's code for that value (fall / continue: the generator resumes; break / raise /
@@ -581,9 +581,91 @@ class Walker:
                             s3.env[nm] = Fresh("aftergen_" + nm)
                 outs.append((s3, "exhausted", None))
             elif k3.startswith("body-"):
-                outs.append((s3, k3[5:], p3))
+                outs.append((s3, k3 if raw_kinds else k3[5:], p3))
             else:
                 outs.append((s3, k3, p3))
+        return outs
+
+    def _next_loop(self, n, st):
+        """while True:
+               try: X = next(G)
+               except StopIteration: break
+               [except E: H]
+               [else: B]
+               REST
+        with G a generator object of the repository: the generator's body is walked in place, B and
+        REST run for every value it yields.  An exception that leaves the generator's own code
+        finishes the generator: after a handler H that carries on with the loop, the following
+        next(G) raises StopIteration - the loop ends, the remaining elements are never produced."""
+        if not (isinstance(n.test, ast.Constant) and n.test.value in (True, 1)) or n.orelse or not n.body:
+            return None
+        t = n.body[0]
+        if not (isinstance(t, ast.Try) and len(t.body) == 1 and not t.finalbody and isinstance(t.body[0], ast.Assign) and len(t.body[0].targets) == 1):
+            return None
+        call = t.body[0].value
+        if not (isinstance(call, ast.Call) and isinstance(call.func, ast.Name) and call.func.id == "next" and len(call.args) == 1 and not call.keywords and isinstance(call.args[0], ast.Name)):
+            return None
+        g = call.args[0].id
+        gen = st.env.get(g)
+        if "next" in st.env or not (isinstance(gen, tuple) and len(gen) == 3 and gen[0] == "gen"):
+            return None
+        stop = [h for h in t.handlers if isinstance(h.type, ast.Name) and h.type.id == "StopIteration"]
+        if len(stop) != 1 or not (len(stop[0].body) == 1 and isinstance(stop[0].body[0], ast.Break)) or t.handlers[0] is not stop[0]:
+            return None
+        uses = [x for x in ast.walk(n) if isinstance(x, ast.Name) and x.id == g]
+        if len(uses) != 1:
+            return None
+        others = [h for h in t.handlers if h is not stop[0]]
+        target = t.body[0].targets[0]
+        rest = list(t.orelse) + list(n.body[1:])
+        assigned = self._assigned_names(n.body)
+
+        def on_yield(s_c, value):
+            res = []
+            for s0, k0, p0 in self._assign_target(target, value, s_c, n):
+                if k0 != "fall":
+                    res.append((s0, k0, p0))
+                else:
+                    res.extend(self.block(rest, s0))
+            return res
+
+        s = st.copy()
+        s.env[g] = Fresh("consumed_generator")
+        outs = []
+        for s2, k2, p2 in self._run_generator(gen, s, on_yield, n, assigned, raw_kinds=True):
+            if k2 in ("exhausted", "body-break"):
+                outs.append((s2, "fall", None))
+            elif k2.startswith("body-"):
+                outs.append((s2, k2[5:], p2))
+            elif k2 == "raise":
+                handled = False
+                for h in others:
+                    names = [nm for nm in self.handler_classes(h, s2) if nm != "?dynamic"]
+                    if any(self.prog.exc_is_sub(p2.exc, nm) for nm in names):
+                        hs = s2.copy()
+                        hs.env["$exc"] = p2
+                        if h.name:
+                            hs.env[h.name] = ("excobj", p2.exc)
+                        hs.ev("caught", self.site(h), p2.exc, tuple(names), p2.site(), p2.conds, p2.chain)
+                        for s3, k3, p3 in self.block(h.body, hs):
+                            s3.env.pop("$exc", None)
+                            if h.name:
+                                s3.env.pop(h.name, None)
+                            if k3 in ("fall", "continue"):
+                                # the generator is finished: the next next() raises StopIteration
+                                s3 = s3.copy()
+                                s3.ev("generator-finished", self.site(h), gen[1], p2.exc)
+                                outs.append((s3, "fall", None))
+                            elif k3 == "break":
+                                outs.append((s3, "fall", None))
+                            else:
+                                outs.append((s3, k3, p3))
+                        handled = True
+                        break
+                if not handled:
+                    outs.append((s2, k2, p2))
+            else:
+                outs.append((s2, k2, p2))
         return outs
 
     def _iterate_generator(self, gen, s, node, target, body, orelse):
@@ -1493,6 +1575,9 @@ class Walker:
         return outs
 
     def s_While(self, n, st):
+        special = self._next_loop(n, st)
+        if special is not None:
+            return special
         s = st.copy()
         for nm in self._assigned_names(n.body):
             if nm in s.env:
